@@ -17,8 +17,15 @@ PROVED = ("mk_canonical: for ANY finite list of pairs (any order, any degeneracy
           "insertion sort); union/intersect/diff_canonical (they re-enter the constructor); coverage clause: mk_sound (ANY input: every "
           "instant of the result lies in an input pair, although starts and ends are sorted independently - counting argument) and "
           "mk_complete (pairs with start <= end: every instant of an input pair that is not an endpoint and not in the microsecond before "
-          "a start lies in the result; zero-length inputs vanish)")
-NOT_PROVED = ("closure for split/merge_close/drop/index/time_span/find_support: oracle on the implementation only")
+          "a start lies in the result; zero-length inputs vanish). C01Ops (closure under the other methods, each modelled as the arrays it "
+          "hands to the constructor): select_eq / dropShort_eq / dropLong_eq / extract_eq / getIdx_one (mask, slice, drop_short/long, ep[i] "
+          "return exactly the selected rows), getIdx_canonical + getIdx_sound (any positions), timeSpan_eq + timeSpan_covers, mergeClose_eq "
+          "(the two masked arrays of the Python text are the greedy merge and the constructor leaves it unchanged), mergeClose_covers, "
+          "mergeClose_only (adds only gaps <= threshold), mergeGo_neg, findSupport_eq / _covers / findGo_endpoints (min_gap >= 1us), "
+          "findSupport_canonical (any gap), split_canonical + split_sound, tgetIdx/tintersect/tdiff_canonical")
+NOT_PROVED = ("metadata carried by these methods (C13); the float comparisons `duration > threshold` (thresholds are taken half a lattice step away "
+              "from every duration so that float and integer comparisons agree); find_support with min_gap < 1 us is only shown canonical")
+EXTRA_MODULES = ["C01Ops"]
 ASSUMPTIONS = ["np.sort returns a sorted permutation", "float endpoints compare like their integer-ns images (DESIGN 2.3)"]
 
 SCALES = [500, 1000, 2000, 10**6, 1953125, 10**9]
@@ -122,6 +129,40 @@ def op_cases(ctx, n):
             ts = nap.Ts(farr(sorted(set(a[0] + a[1] + b[0])), sc))
             results["find_support"] = ts.find_support(1.5 * sc / 1e9)
             results["restrict.support"] = ts.restrict(A).time_support
+        # ---- the same methods on the Lean model (PynModel/Core/ISetOps.lean), half-step thresholds: no float ties
+        pa = ",".join("%d:%d" % (s, e) for s, e in zip(*an)) or "-"
+        h = sc // 2
+        def _model(line, opname, r, extra):
+            lines.append(line); meta.append((dict(inp, op=opname, **extra), opname, "err" if r is None else list(zip(*iset_ns(r)))))
+        if len(A):
+            thr = (2 * ctx.rng.randrange(0, 4) + 1) * h
+            _model("idrops %s %d" % (pa, thr), "drop_short_intervals", A.drop_short_intervals(thr / 1e9), dict(thr_ns=thr))
+            thr = (2 * ctx.rng.randrange(0, 4) + 1) * h
+            _model("idropl %s %d" % (pa, thr), "drop_long_intervals", A.drop_long_intervals(thr / 1e9), dict(thr_ns=thr))
+            thr = (2 * ctx.rng.randrange(-1, 4) + 1) * h
+            _model("imclose %s %d" % (pa, thr), "merge_close_intervals", A.merge_close_intervals(thr / 1e9), dict(thr_ns=thr))
+            _model("itspan %s" % pa, "time_span", A.time_span(), {})
+            ix = [ctx.rng.randrange(len(A)) for _ in range(ctx.rng.randint(1, 4))]
+            _model("iget %s %s" % (pa, enc(ix)), "index[list]", A[ix], dict(ix=ix))
+            ix = [i for i in range(len(A)) if ctx.rng.random() < 0.5]
+            if ix:
+                mask = np.zeros(len(A), dtype=bool); mask[ix] = True
+                _model("iget %s %s" % (pa, enc(ix)), "index[mask]", A[mask], dict(ix=ix))
+            lo = ctx.rng.randrange(len(A)); hi = ctx.rng.randrange(lo, len(A) + 1)
+            if hi > lo:
+                _model("iget %s %s" % (pa, enc(list(range(lo, hi)))), "index[slice]", A[lo:hi], dict(lo=lo, hi=hi))
+            k = ctx.rng.randrange(len(A))
+            _model("iget %s %d" % (pa, k), "index[int]", A[k], dict(ix=[k]))
+            tsn = sorted(set(v * sc for v in a[0] + a[1] + b[0]))
+            gap = (2 * ctx.rng.randrange(0, 5) + 1) * h
+            _model("ifsup %s %d" % (enc(tsn), gap), "find_support", nap.Ts(np.array(tsn) / 1e9).find_support(gap / 1e9), dict(ts=tsn, gap_ns=gap))
+        else:
+            try:
+                r = A.time_span()
+            except IndexError:
+                r = None
+            _model("itspan -", "time_span(empty)", r, {})
+            _model("imclose - %d" % h, "merge_close_intervals(empty)", A.merge_close_intervals(h / 1e9), {})
         for name, r in results.items():
             st, en = iset_ns(r)
             if not is_canonical_ns(st, en):
@@ -132,9 +173,10 @@ def op_cases(ctx, n):
     out = ctx.lean.run(lines) if ctx.lean else None
     if out is not None:
         for (inp, opname, got), o in zip(meta, out):
-            m = [] if o == "-" else [tuple(int(v) for v in p.split(":")) for p in o.split(",")]
-            if m != [tuple(g) for g in got]:
+            m = "err" if o == "err" else [] if o == "-" else [tuple(int(v) for v in p.split(":")) for p in o.split(",")]
+            if m != ("err" if got == "err" else [tuple(g) for g in got]):
                 ctx.fail("corr", "%s != model" % opname, inp, impl=got, model=m)
+            ctx.count("op=" + opname)
 
 
 def run(ctx):
